@@ -31,6 +31,7 @@ void harness(void)
 		__int128 got = in_type == 'b' ? (__int128) out.b : in_type == 'n' ? (__int128) out.n : in_type == 'i' ? (__int128) out.i : (__int128) out.x;
 		V_CHECK("consume: delivered value denotes the source number", got == (__int128) in_val);
 	}
+	V_CHECK("consume: the same verdict with and without destination: an unrepresentable value is refused either way", IMP(g_has_value && ((in_type == 'b' && (in_val < -128 || in_val > 127)) || (in_type == 'n' && (in_val < -32768 || in_val > 32767))), ret < 0 && g_advances == 0));
 	V_CHECK("consume: refused conversion => not advanced, nothing stored", IMP(ret < 0 && !(g_advances && in_adv_ret < 0), g_advances == 0 && out.raw[0] == 0xA5));
 	V_COVER("narrowing accepted", ret >= 0 && in_type == 'b' && in_has_dest);
 	V_COVER("narrowing refused", ret < 0 && in_type == 'b' && g_has_value);
